@@ -491,6 +491,18 @@ class QGen:
                          "first": f"({r[0]}.First() > {self.pick(['0', '1.5', '10'])})"}[how]
             a, ka = self.num(scope, fuel - 1)
             b, kb = self.num(scope, fuel - 1)
+            if f.first and not self.safe and self.chance(1, 4):
+                # an arm that needs a block of its own: First() of a sequence (a loop with an if inside it)
+                self.noflat += 1
+                r = self.numseq(scope, 0)
+                self.noflat -= 1
+                if r is not None:
+                    self.labels.add("First")
+                    self.labels.add("ifexp-arm-with-First")
+                    if self.chance(1, 2):
+                        a = f"{r[0]}.First()"
+                    else:
+                        b = f"{r[0]}.First()"
             self.labels.add("ifexp")
             return (f"({a} if {c} else {b})", "double")
         if k == "math":
